@@ -573,3 +573,21 @@ fn x_usable_after_load() {
     st.sample(format!("{} loaded and fully exercised, {} rejected, {} other", t[0], t[1], t[2]));
     st.finish();
 }
+
+/// Replay helper: load the file named by VERIF_REPLAY_FILE with the real library and exercise it.
+#[test]
+fn x_replay_file() {
+    let path = match std::env::var("VERIF_REPLAY_FILE") {
+        Ok(p) => p,
+        Err(_) => return,
+    };
+    let bytes = std::fs::read(&path).expect("replay input file");
+    println!("REPLAY-FILE {} ({} bytes)", path, bytes.len());
+    match run_one(&bytes, true) {
+        Fate::Loaded => println!("REPLAY-RESULT loads; every accessor returns"),
+        Fate::Rejected => println!("REPLAY-RESULT rejected: {}", AsepriteFile::read(&bytes[..]).err().map(|e| e.to_string()).unwrap_or_default()),
+        Fate::PanicLoad(m) => println!("REPLAY-RESULT PANIC while loading: {}", m),
+        Fate::PanicUse(m) => println!("REPLAY-RESULT loads, then PANIC in an accessor: {}", m),
+        f => println!("REPLAY-RESULT {:?}", f),
+    }
+}
